@@ -23,6 +23,11 @@ open Atomman Atomman.C09 Atomman.Gen
     radicand L M T E Q         → value | none             quantity under the square root of `reset_units`
                                                           (each of L M T E Q: `-` or cp,cp,…)
     reset L M T E Q r          → m kg s C K | err:value   base scalings after `reset_units(**kw)`, `r` = the root
+    sreset L M T E Q r         → m kg s C K | err:value   the session call `Call.reset`: same reply, and the STATE becomes
+                                                          `Call.next` (unchanged when > 4 keywords, SI when the call raises
+                                                          half-way, the computed scalings otherwise)
+    conv n x1…xn cp… | cp…     → n values | err           `uc.get_in_units(uc.set_in_units([x…], s1), s2)` (`Call.convert`)
+  The reads `parseu`, `unit`, `setlit`, `conv` are answered by `Call.reply` of the session model (Atomman/C09.lean).
     nstyles                    → 8
     style i                    → name n  then n × (label-with-_ | cp,cp,…)   generated style table i
     styleok i                  → 0/1                      `styleDimsOK unitTable (styleTables[i])`
@@ -136,6 +141,26 @@ def splitCount (toks : List String) : Option (List Rat × List Char) :=
     | none => none
   | [] => none
 
+def showL (o : Option (List Rat)) : String :=
+  match o with
+  | some vs => showRats vs
+  | none => err "value"
+
+/-- `n x1…xn cp… | cp…`. -/
+def splitCount2 (toks : List String) : Option (List Rat × List Char × List Char) :=
+  match toks with
+  | n :: rest =>
+    match n.toNat? with
+    | some n =>
+      let strs := rest.drop n
+      let a := strs.takeWhile (· ≠ "|")
+      let b := (strs.dropWhile (· ≠ "|")).drop 1
+      match parseRats? (rest.take n), chars? a, chars? b with
+      | some xs, some c1, some c2 => if xs.length = n then some (xs, c1, c2) else none
+      | _, _, _ => none
+    | none => none
+  | [] => none
+
 /-- guard pre-pass, then the proved algebra. -/
 def guarded (pre : Option GV) (run : Unit → String) : String :=
   match pre with
@@ -157,7 +182,7 @@ def step (sc : Scales Rat) (toks : List String) : Scales Rat × String :=
     | none => (sc, err "format")
   | "parseu" :: rest =>
     match chars? rest with
-    | some cs => (sc, guarded (parseUnits gvAlg envG (some cs)) fun _ => showO (parseUnits rAlg env (some cs)))
+    | some cs => (sc, guarded (parseUnits gvAlg envG (some cs)) fun _ => showL ((Call.parse (some cs)).reply rAlg unitTable sc))
     | none => (sc, err "format")
   | ["parsenone"] => (sc, showO (parseUnits rAlg env none))
   | "track" :: rest =>
@@ -176,7 +201,7 @@ def step (sc : Scales Rat) (toks : List String) : Scales Rat × String :=
     | none => (sc, err "format")
   | "unit" :: rest =>
     match chars? rest with
-    | some cs => (sc, showO (env cs))
+    | some cs => (sc, showL ((Call.unit cs).reply rAlg unitTable sc))
     | none => (sc, err "format")
   | "set" :: rest =>
     match splitCount rest with
@@ -200,7 +225,7 @@ def step (sc : Scales Rat) (toks : List String) : Scales Rat × String :=
       if (splitPoints cs).any fun j =>
           let unit := strip (cs.drop j)
           isBig (parseUnits gvAlg envG (if unit.isEmpty then none else some unit)) then (sc, err "size")
-      else (sc, showO (setLiteral rAlg env cs))
+      else (sc, showL ((Call.setlit cs).reply rAlg unitTable sc))
     | none => (sc, err "format")
   | "radicand" :: rest =>
     match choice? rest with
@@ -216,6 +241,18 @@ def step (sc : Scales Rat) (toks : List String) : Scales Rat × String :=
       | some s => (sc, showRats [s.m, s.kg, s.s, s.c, s.k])
       | none => (sc, err "value")
     | _, _ => (sc, err "format")
+  | ["sreset", l, m, t, e, q, r] =>
+    match choice? [l, m, t, e, q], parseRat? r with
+    | some ch, some r =>
+      let c : Call Rat := .reset ch r
+      (c.next unitTable sc, showL (c.reply rAlg unitTable sc))
+    | _, _ => (sc, err "format")
+  | "conv" :: rest =>
+    match splitCount2 rest with
+    | some (xs, c1, c2) =>
+      if isBig (parseUnits gvAlg envG (some c1)) || isBig (parseUnits gvAlg envG (some c2)) then (sc, err "size")
+      else (sc, showL ((Call.convert xs (some c1) (some c2)).reply rAlg unitTable sc))
+    | none => (sc, err "format")
   | ["nstyles"] => (sc, toString styleTables.length)
   | ["style", i] =>
     match i.toNat? with
